@@ -173,6 +173,9 @@ def c13_r3(ctx: Ctx, rule):
             if not isinstance(n, (ast.If, ast.IfExp)):
                 continue
             conj = n.test.values if isinstance(n.test, ast.BoolOp) and isinstance(n.test.op, ast.And) else [n.test]
+            if isinstance(n.test, ast.BoolOp) and isinstance(n.test.op, ast.Or):
+                # `k in m or m[k]`: the membership test is an alternative, not a conjunct - the truth test beside it guards nothing
+                conj = [v for v in n.test.values if isinstance(v, ast.Compare) and len(v.ops) == 1 and isinstance(v.ops[0], ast.In) and isinstance(v.comparators[0], ast.Attribute) and v.comparators[0].attr == mm]
             for c in conj:
                 if not (isinstance(c, ast.Compare) and len(c.ops) == 1 and isinstance(c.ops[0], ast.In) and isinstance(c.comparators[0], ast.Attribute) and c.comparators[0].attr == mm):
                     continue
@@ -803,10 +806,22 @@ def c08_r1(ctx: Ctx, rule):
     # what is merged: *all* attributes of every record of the group (formal ones included - an optional formal argument may be
     # given by a later statement only), i.e. the whole-attribute view, not a partial one
     whole = attr_slot(ctx)
+    hclosure = [q2 for q2 in ctx.helper_closure(q) if q2.startswith(BUNDLE + ".")]
     for c in merges:
         a = resolve_local(fi.node, c.args[0]) if c.args else None
         partial = [x.attr for x in ast.walk(a) if isinstance(x, ast.Attribute) and x.attr in ("extra_attributes", "formal_attributes", "args")] if a is not None else []
         allattrs = a is not None and any(isinstance(x, ast.Attribute) and (x.attr == "attributes" or x.attr == whole) for x in ast.walk(a))
+        # the loop feeding the merge walks every record after the one the merged record was built from
+        for q2 in hclosure:
+            for loop in walk_function(ctx.fn(q2).node):
+                if isinstance(loop, ast.For) and any(x is c for x in ast.walk(loop)) and isinstance(loop.iter, ast.Subscript) and isinstance(loop.iter.slice, ast.Slice):
+                    sl = loop.iter.slice
+                    lo = sl.lower.value if isinstance(sl.lower, ast.Constant) else (None if sl.lower is None else "?")
+                    okr = sl.upper is None and sl.step is None and lo in (None, 0, 1)
+                    res.ob("%s: the merge loop walks %s: every later record: %s" % (short(q2), norm(loop.iter), okr))
+                    if not okr:
+                        res.fail(rule.id, "merge-loop-partial::%s" % norm(loop.iter), ctx.loc(q2, loop), "the merge loop walks %s, not all the records after the first" % norm(loop.iter),
+                                 "three statements about ex:e, the middle one alone carrying ex:k: the unified record has no ex:k")
         res.ob("%s: merges %s: the record's whole attribute list: %s" % (short(q), norm(c.args[0])[:50] if c.args else "?", allattrs and not partial))
         if partial and not allattrs:
             res.fail(rule.id, "merge-partial-attributes::%s" % partial[0], ctx.loc(q, c),
@@ -1339,6 +1354,15 @@ def c09_r10(ctx: Ctx, rule):
         # (b) None test of the result before it is stored
         tgt = next((a.targets[0].id for a in walk_function(fi.node) if isinstance(a, ast.Assign) and a.value is c and isinstance(a.targets[0], ast.Name)), None)
         stores = [n for n in walk_function(fi.node) if isinstance(n, ast.Assign) and tgt and any(isinstance(t, ast.Subscript) and isinstance(t.slice, ast.Name) and t.slice.id == tgt for t in n.targets)]
+        # the duplicate test and the store use the same (resolved) key
+        bmap = {norm(t.value) for st in stores for t in st.targets if isinstance(t, ast.Subscript)}
+        for n in walk_function(fi.node):
+            if isinstance(n, ast.Compare) and len(n.ops) == 1 and isinstance(n.ops[0], (ast.In, ast.NotIn)) and norm(n.comparators[0]) in bmap and tgt:
+                okk = isinstance(n.left, ast.Name) and n.left.id == tgt
+                res.ob("the duplicate test `%s` uses the resolved identifier `%s`: %s" % (norm(n)[:50], tgt, okk))
+                if not okk:
+                    res.fail(rule.id, "duplicate-test-on-unresolved-identifier", ctx.loc(q, n), "add_bundle tests `%s` but stores under `%s`: a string identifier never matches the QualifiedName keys" % (norm(n)[:50], tgt),
+                             "d.add_bundle(b, 'ex:b0') while ex:b0 exists: the duplicate is not refused, the existing bundle is silently replaced")
         for st in stores:
             sn = node_of(g, st)
             tested = any(g.nodes[i].kind == "test" and tgt in norm(g.nodes[i].stmt.test) and ("None" in norm(g.nodes[i].stmt.test) or norm(g.nodes[i].stmt.test) in (tgt, "not %s" % tgt)) for i in dom.get(sn.id, set()))
@@ -1541,3 +1565,14 @@ RULES.setdefault("C09", []).append(Rule("C09.R13", "records and bundle identifie
                                         "flattened/update/add_bundle conserve value kinds and bundle URIs"))
 RULES.setdefault("C05", []).append(Rule("C05.R14", "the literal converter hands native Python values back unchanged (shared with C09.R13)", 2, c09_r13, "F-OWN",
                                         "a bool stays a bool whichever entry path stored it"))
+
+
+# whole-map readers tolerating empty entries is what makes the text exporters independent of earlier reads: also a condition of
+# the PROV-N text (an absent argument prints '-', not None) and of the JSON text (no "prov:plan": "None", nothing skipped)
+for _p, _r, _d in (("C06", "C06.R14", "an absent optional argument is printed as '-' whatever was read from the record before"),
+                   ("C01", "C01.R15", "the JSON text does not depend on attributes having been looked up before"),
+                   ("C10", "C10.R17", "no 'None' name and no empty value list is emitted for attributes that were only looked up")):
+    RULES.setdefault(_p, []).append(Rule(_r, "readers of the attribute multimap tolerate empty value sets and do not take key membership for a value (shared with C13.R3)", 3, c13_r3, "F-PATH", _d))
+
+RULES.setdefault("C12", []).append(Rule("C12.R10", "update() leaves its argument unchanged and walks all of it (shared with C09.R4)", 5, c09_r4, "F-OWN",
+                                        "d1.update(d2) never writes into d2"))
